@@ -495,6 +495,9 @@ def fam_api(rnd, n, races=6):
                     "tag": "api-race", "lat": {"b1.s1.a1": [rnd.choice([200, 2000])]}})
     res.append({"kind": "api", "shape": tiny, "mode": "free", "out": {}, "api": ["submit", "sleep:60", "start", "plan", "wait"], "maxsubmitms": 25, "tag": "api-stale"})
     res.append({"kind": "api", "shape": tiny, "mode": "free", "out": {}, "api": ["submit", "start", "wait", "start", "race3", "plan"], "tag": "api-restart"})
+    # a plugin with an invalid RetryPolicy: the registry refuses it - or, if it takes it, starting a plan that uses it does not end the process
+    for bp in ("negrand", "bigrand", "zerointerval", "mult1"):
+        res.append({"kind": "api", "shape": tiny, "mode": "free", "out": {"b1.s1.a1": ["tr", "ok"]}, "api": ["submit", "start", "wait", "plan"], "tag": "api-badpolicy", "badpolicy": bp})
     for lat in (3000, 8000):
         res.append({"kind": "api", "shape": tiny, "mode": "free", "out": {}, "api": ["submit", "start", "waitto", "statusbrk", "waitto", "wait", "plan"], "tag": "api-abandon", "lat": {"b1.s1.a1": [lat]}})
         res.append({"kind": "api", "shape": tiny, "mode": "free", "out": {}, "api": ["submit", "start", "statusbrk", "status", "wait"], "tag": "api-abandon", "lat": {"b1.s1.a1": [lat]}})
